@@ -243,7 +243,18 @@ def replay_function(py):
     fn = copy.deepcopy(py.function(TR, 'exec_proof'))
     helpers = {g.name: g for g in fn.body if isinstance(g, ast.FunctionDef)
                and any(isinstance(r, ast.Return) and r.value is not None for r in ast.walk(g))
-               and not any(isinstance(x, (ast.For, ast.While)) for x in ast.walk(g))}
+               and not any(isinstance(r, ast.Return) for lp_ in ast.walk(g) if isinstance(lp_, (ast.For, ast.While)) for r in ast.walk(lp_))}
+    # the builder of the instantiation map is read by role (delta_builder), not written out
+    for c_ in ast.walk(fn):
+        if isinstance(c_, ast.Call) and isinstance(c_.func, ast.Attribute) and c_.func.attr in ('instantiate', 'instantiate_pattern') and len(c_.args) == 2 \
+                and isinstance(c_.args[1], ast.Call) and isinstance(c_.args[1].func, ast.Name):
+            helpers.pop(c_.args[1].func.id, None)
+    for nm_, g_ in list(helpers.items()):
+        # (also when its result is bound to a local first: a helper that fills a map store by store in a loop and returns it)
+        rets_ = [r.value.id for r in ast.walk(g_) if isinstance(r, ast.Return) and isinstance(r.value, ast.Name)]
+        if any(isinstance(t_, ast.Subscript) and isinstance(t_.value, ast.Name) and t_.value.id in rets_ and isinstance(t_.ctx, ast.Store)
+               for lp_ in ast.walk(g_) if isinstance(lp_, (ast.For, ast.While)) for t_ in ast.walk(lp_)):
+            helpers.pop(nm_)
     if helpers:
         changed = False
         for holder in ast.walk(fn):
@@ -279,6 +290,19 @@ def replay_function(py):
         fn = g
     _REPLAY[key] = fn
     return fn
+
+
+def _has_metavars(sp):
+    """the names x for which the path has established that `x.metavars` is not empty, in any spelling of the test:
+    `len(x.metavars) > 0`, `x.metavars` (truth value), `len(x.metavars) == 0` / `not x.metavars` refuted"""
+    out = []
+    for c, b in sp.conds:
+        for rx, want in ((r'len\((\w+)\.metavars\) > 0', True), (r'(\w+)\.metavars', True), (r'len\((\w+)\.metavars\) != 0', True),
+                         (r'len\((\w+)\.metavars\) >= 1', True), (r'len\((\w+)\.metavars\) == 0', False), (r'not (\w+)\.metavars', False)):
+            m = re.fullmatch(rx, c)
+            if m and b is want:
+                out.append(m.group(1))
+    return out
 
 
 def accessors(fn, INTERP):
@@ -389,7 +413,7 @@ def run(ctx):
                 kind, expected = f'constructor {eqs[0]}', Lin(1 - hyps(eqs[0]))
                 why = f'{eqs[0]} has {hyps(eqs[0])} mandatory hypotheses in the prelude'
             else:
-                mv = [m.group(1) for c, b in sp.conds for m in [re.fullmatch(r'len\((\w+)\.metavars\) > 0', c)] if m and b]
+                mv = _has_metavars(sp)
                 kind = 'constructor axiom' + (' with metavariables' if mv else ' without metavariables')
                 expected = Lin(1, {MVO: -1}) if mv else Lin(1)
                 why = 'one floating hypothesis per metavariable of the constructor (in database order) is popped, the pattern is pushed'
@@ -397,7 +421,7 @@ def run(ctx):
             kind, expected, why = 'floating hypothesis', Lin(1), 'a floating hypothesis pushes its variable'
         elif f'{LABEL} in {CONV}.exported_axioms' in true:
             ants = [m.group(1) for c, b in sp.conds for m in [re.fullmatch(r'isinstance\((\w+), AxiomWithAntecedents\)', c)] if m and b]
-            mv = [m.group(1) for c, b in sp.conds for m in [re.fullmatch(r'len\((\w+)\.metavars\) > 0', c)] if m and b]
+            mv = _has_metavars(sp)
             t = {}
             if ants:
                 t[f'{ants[0]}.antecedents'] = -1
@@ -1450,6 +1474,19 @@ def publication(ctx, py, fn, tail, CONV, TARGET, STACK, receivers):
                 for c in _own(a):
                     if isinstance(c, ast.Call) and isinstance(c.func, ast.Attribute) and c.func.attr == attr and len(c.args) == 1:
                         iso = [(m.group(1), b) for cnd, b in sp.conds for m in [re.fullmatch(r'isinstance\((\w+), AxiomWithAntecedents\)', cnd)] if m]
+                        # the choice made by a shared module-level helper `H(axiom)`: its two returns, under its own class test
+                        a0 = inline_locals(sp.actions, c.args[0], {iso[0][0]} if iso else set())
+                        h = py.module(TR).functions.get(a0.func.id) if isinstance(a0, ast.Call) and isinstance(a0.func, ast.Name) and len(a0.args) == 1 \
+                            and not a0.keywords else None
+                        if h is not None and len(h.args.args) == 1:
+                            hp = h.args.args[0].arg
+                            for hsp in astpaths.paths(h.body):
+                                pol_ = next((b for cnd, b in hsp.conds if cnd == f'isinstance({hp}, AxiomWithAntecedents)'), None)
+                                rets_ = [x for x in hsp.actions if isinstance(x, ast.Return) and x.value is not None]
+                                if pol_ is not None and len(rets_) == 1 and (not iso or iso[0][1] == pol_):
+                                    rv_ = inline_locals(hsp.actions, rets_[0].value, {hp})
+                                    out.setdefault(pol_, set()).add(re.sub(rf'\b{hp}\b', '$AX', ast.unparse(rv_)))
+                            continue
                         if not iso:
                             continue
                         var, pol = iso[0]
